@@ -166,6 +166,12 @@ class World(object):
             return self.extra.quote(asset, t)
         return q
 
+    def alt_quote(self, asset, t):
+        """The same files read with the OTHER price-adjustment setting."""
+        if not hasattr(self, 'ev_alt'):
+            self.ev_alt = {'EQ:' + sym: datawl.events(rows, not self.adjust) for sym, rows in self.rows.items()}
+        return datawl.expected(self.ev_alt[asset], t)[0] if asset in self.ev_alt else None
+
     def source_of(self, asset, value):
         """(date, field) of the cell a returned number comes from, or None."""
         a, e = datawl.decode({asset: self.ev.get(asset, [])}, value, asset)
